@@ -38,8 +38,12 @@ def err_variant(t):
 def rule_check_file_offset(ctx, prog):
     b = prog.one(name="check_file_offset", path_re=r"^mmap::check_file_offset$")
     seen = set()
-    for pos, t in b.return_terms():
-        facts = b.facts_at(pos)
+    from .. import outcomes as _oc
+    _eff = effects.Effects(prog)
+    # outcome table: the same for `if let Some(end) = .. else`, `checked_add(..).ok_or(E)?`, match / map_err spellings
+    for o in _oc.outcomes(prog, _eff, b):
+        pos, t = o[0], o[1]
+        facts = _oc.facts_of(b, o, (prog, _eff))
         v = err_variant(t)
         td = deep_strip(t)
         end = OKP(C("num::checked_add", C("FileOffset::start", P(1)), P(2)))
@@ -329,6 +333,11 @@ def rule_xen(ctx, prog):
     if len(mm) == 1:
         a = [unref(x) for x in mm[0].args()]
         ok = match(F(P(1), "size"), a[0], {})
+        if not ok and a[0][0] == 'param':
+            # the size arrives as a parameter of its own: then every caller must hand in its range's `size`
+            k = a[0][1]
+            sites = [c2 for cb in prog.bodies for c2 in cb.calls() if (c2.target or "") == g.id]
+            ok = bool(sites) and all(match(F(ANY, "size"), c2.arg(k - 1), {}) for c2 in sites)
     ctx.ob("R15.3.xen_unix_size", g.key, ok, g.where(), "MmapUnix::new(range.size, ..): the requested size is what is mapped")
     # xen region aggregate copies the range's fields
     b = prog.one(adt="mmap::xen::MmapRegion", name="from_range")
